@@ -29,7 +29,7 @@ def sim_cases():
         g.op_apply(), g.op_apply(), g.op_map(), g.op_imap(), g.work, g.work,
         g.work, g.feed, g.tick, g.tick, g.tick, g.adv, g.die_any, g.die_any,
         g.dier, g.wexit, g.wexit, g.grow, g.shrink, g.shrink, g.slow, g.run,
-        g.straggle.map(lambda o: o[:3] + [False]),
+        g.straggle.map(lambda o: o[:3] + [False]), g.parkrecycle,
     ]
     return g.history(cfg, ops, max_ops=70, min_ops=15)
 
